@@ -183,17 +183,19 @@ Section Exposure.
   Context {Scene Data : Type}.
   Variable empty_scene : Scene.
   Variable scene_is_empty : Scene -> bool.
-  Variable copies : ckind -> bool.
+  Variable tbl : tables.
 
   Notation det := (det Scene Data).
   Notation config := (config Scene Data).
   Notation tree := (tree Scene Data).
   Notation end_states := (end_states empty_scene).
-  Notation exposure := (exposure empty_scene scene_is_empty copies).
+  Notation exposure := (exposure empty_scene scene_is_empty tbl).
   Notation reset := (reset empty_scene).
-  Notation views := (views empty_scene copies).
+  Notation views := (views empty_scene tbl).
   Notation trace := (trace empty_scene).
-  Notation debug_steps := (debug_steps empty_scene copies).
+  Notation debug_steps := (debug_steps empty_scene tbl).
+  Notation labels := (labels tbl).
+  Notation copies := (tb_copies tbl).
 
   Lemma end_states_length : forall (c : config) n i d, List.length (end_states c i n d) = n.
   Proof. induction n; simpl; intros; [reflexivity|]. rewrite IHn. reflexivity. Qed.
@@ -232,32 +234,55 @@ Section Exposure.
      buffer at every reset: true of the charge array (Charge.empty: np.zeros_like) ---- *)
   Definition slices_safe : Prop := forall k, copies k = false -> k = KCharge.
 
-  Lemma settle_snapshot_id : forall (d : det) later s,
-    (forall b a, get s b = Some a -> snd (settle copies d later (b, a)) = a) ->
-    settle_snapshot copies d later s = s.
+  (* every variable of the step dataset is read out of the container of the same name *)
+  Definition exports_all : Prop := forall v, source_of (tb_exported tbl) v = Some v.
+
+  Lemma build_snapshot_get : forall s, build_snapshot (fun v => get s v) = s.
+  Proof. destruct s; reflexivity. Qed.
+
+  Lemma build_snapshot_ext : forall f g, (forall v, f v = g v) -> build_snapshot f = build_snapshot g.
+  Proof. intros f g H. unfold build_snapshot. rewrite !H. reflexivity. Qed.
+
+  Lemma export_id : exports_all -> forall s, export tbl s = s.
   Proof.
-    intros d later [p c x g i] H. unfold settle_snapshot. simpl.
-    f_equal.
-    - destruct p as [a|]; simpl; [|reflexivity]. f_equal. apply (H Photon a). reflexivity.
-    - destruct c as [a|]; simpl; [|reflexivity]. f_equal. apply (H Charge a). reflexivity.
-    - destruct x as [a|]; simpl; [|reflexivity]. f_equal. apply (H Pixel a). reflexivity.
-    - destruct g as [a|]; simpl; [|reflexivity]. f_equal. apply (H Signal a). reflexivity.
-    - destruct i as [a|]; simpl; [|reflexivity]. f_equal. apply (H Image a). reflexivity.
+    intros H s. unfold export. transitivity (build_snapshot (fun v => get s v)); [|apply build_snapshot_get].
+    apply build_snapshot_ext. intros v. rewrite H. reflexivity.
+  Qed.
+
+  Lemma settle_export_id : exports_all -> forall (d : det) later s,
+    (forall b a, get s b = Some a -> settle_arr tbl d later b a = a) ->
+    settle_export tbl d later s = s.
+  Proof.
+    intros He d later s H. unfold settle_export.
+    transitivity (build_snapshot (fun v => get s v)); [|apply build_snapshot_get].
+    apply build_snapshot_ext. intros v. rewrite He.
+    destruct (get s v) as [a|] eqn:E; simpl; [|reflexivity]. f_equal. apply H. exact E.
   Qed.
 
   Lemma views_exact : forall (c : config) ends,
-    slices_safe -> views c ends = map view ends.
+    slices_safe -> exports_all -> views c ends = map view ends.
   Proof.
-    intros c [|e0 rest] Hs; simpl; [reflexivity|]. f_equal.
-    apply settle_snapshot_id. intros b a Hg. unfold settle. simpl.
-    destruct (copies (kind_of b a)) eqn:Ec; [reflexivity|].
-    apply Hs in Ec. destruct b; simpl in Ec; try discriminate.
-    - destruct (List.length (a_shape a) =? 3)%nat; discriminate.
-    - simpl. destruct rest as [|e1 rest]; simpl; [reflexivity|].
-      rewrite andb_false_r.
-      destruct (Nat.eqb (S (d_gen e0 Charge)) (d_gen e0 Charge)) eqn:E; [|reflexivity].
-      apply Nat.eqb_eq in E. lia.
+    intros c [|e0 rest] Hs He; simpl; [reflexivity|]. f_equal.
+    - apply settle_export_id; [exact He|]. intros b a Hg. unfold settle_arr.
+      destruct (copies (kind_of b a)) eqn:Ec; [reflexivity|].
+      apply Hs in Ec. destruct b; simpl in Ec; try discriminate.
+      + destruct (List.length (a_shape a) =? 3)%nat; discriminate.
+      + destruct rest as [|e1 rest]; simpl; [reflexivity|].
+        rewrite andb_false_r.
+        destruct (Nat.eqb (S (d_gen e0 Charge)) (d_gen e0 Charge)) eqn:E; [|reflexivity].
+        apply Nat.eqb_eq in E. lia.
+    - apply map_ext. intros d. apply export_id. exact He.
   Qed.
+
+  Lemma views_length : forall (c : config) ends, List.length (views c ends) = List.length ends.
+  Proof. intros c [|e0 rest]; simpl; [reflexivity|]. rewrite map_length. reflexivity. Qed.
+
+  Lemma labels_length : forall (c : config), List.length (labels c) = List.length (c_times c).
+  Proof. intros c. unfold Result.labels. destruct (tb_label tbl); [apply map_length|reflexivity]. Qed.
+
+  Lemma labels_absolute : tb_label tbl = LAbsolute ->
+    forall c : config, labels c = map (Z.add (c_start c)) (c_times c).
+  Proof. intros H c. unfold Result.labels. rewrite H. reflexivity. Qed.
 
   Definition ends_of (c : config) (d_init : det) : list det :=
     end_states c 0 (List.length (c_times c)) (reset (c_shape c) false d_init).
@@ -267,21 +292,21 @@ Section Exposure.
 
   Lemma labels_views_length : forall (c : config) (d_init : det),
     List.length (labels c) = List.length (map view (ends_of c d_init)).
-  Proof. intros. unfold labels, ends_of. rewrite !map_length, end_states_length. reflexivity. Qed.
+  Proof. intros. unfold ends_of. rewrite labels_length, map_length, end_states_length. reflexivity. Qed.
 
   (* C03_slices: for EVERY schedule *)
   Theorem slices_faithful : forall (c : config) (d_init : det),
-    slices_safe ->
+    slices_safe -> exports_all ->
     image_stable (map view (ends_of c d_init)) ->
     t_buckets (exposure c d_init) = combine (labels c) (map view (ends_of c d_init)) /\
     List.length (t_buckets (exposure c d_init)) = List.length (c_times c).
   Proof.
-    intros c d_init Hsafe Hst. unfold Result.exposure. simpl. fold (ends_of c d_init).
-    rewrite (views_exact c _ Hsafe).
+    intros c d_init Hsafe Hexp Hst. unfold Result.exposure. cbn [t_buckets]. fold (ends_of c d_init).
+    rewrite (views_exact c _ Hsafe Hexp).
     pose proof (labels_views_length c d_init) as Hlen.
     rewrite assemble_stable.
     - split; [reflexivity|].
-      etransitivity; [apply combine_length|]. rewrite <- Hlen. unfold labels. rewrite map_length. lia.
+      etransitivity; [apply combine_length|]. rewrite <- Hlen, labels_length. lia.
     - intros x y Hx Hy. apply Hst; eapply in_combine_snd; eauto.
   Qed.
 
@@ -292,7 +317,7 @@ Section Exposure.
     f_equal. apply IHls.
   Qed.
 
-  (* whatever the images are: one slice per readout, labelled start + t_i, in readout order *)
+  (* whatever the images are: one slice per readout, labelled as the table says, in readout order *)
   Theorem labels_faithful : forall (c : config) (d_init : det),
     map fst (t_buckets (exposure c d_init)) = labels c /\
     List.length (t_buckets (exposure c d_init)) = List.length (c_times c).
@@ -300,24 +325,20 @@ Section Exposure.
     intros c d_init. unfold Result.exposure. cbn [t_buckets]. fold (ends_of c d_init).
     destruct (assemble_labels (combine (labels c) (views c (ends_of c d_init)))) as [H1 H2].
     assert (Hlen : List.length (labels c) = List.length (views c (ends_of c d_init))).
-    { unfold labels, ends_of. rewrite map_length.
-      destruct (end_states c 0 (List.length (c_times c)) (reset (c_shape c) false d_init)) as [|e0 rest] eqn:E.
-      - apply (f_equal (@List.length _)) in E. rewrite end_states_length in E. simpl in *. exact E.
-      - apply (f_equal (@List.length _)) in E. rewrite end_states_length in E. simpl in *.
-        rewrite map_length. exact E. }
+    { rewrite views_length, labels_length. unfold ends_of. rewrite end_states_length. reflexivity. }
     split.
     - rewrite H1. apply map_fst_combine. exact Hlen.
-    - rewrite H2. etransitivity; [apply combine_length|]. rewrite <- Hlen. unfold labels. rewrite map_length. lia.
+    - rewrite H2. etransitivity; [apply combine_length|]. rewrite <- Hlen, labels_length. lia.
   Qed.
 
   (* C03_image_dtype: no hypothesis on the values *)
   Theorem image_dtype_kept : forall (c : config) (d_init : det) t_,
-    slices_safe ->
+    slices_safe -> exports_all ->
     Forall (fun d => image_has_dtype t_ (d_snap d)) (ends_of c d_init) ->
     Forall (fun ls => image_has_dtype t_ (snd ls)) (t_buckets (exposure c d_init)).
   Proof.
-    intros c d_init t_ Hsafe Hall. unfold Result.exposure. simpl. fold (ends_of c d_init).
-    rewrite (views_exact c _ Hsafe).
+    intros c d_init t_ Hsafe Hexp Hall. unfold Result.exposure. cbn [t_buckets]. fold (ends_of c d_init).
+    rewrite (views_exact c _ Hsafe Hexp).
     apply assemble_image_dtype.
     rewrite Forall_forall in *. intros x Hx. apply in_combine_snd in Hx.
     apply in_map_iff in Hx. destruct Hx as [d [<- Hd]].
@@ -339,7 +360,7 @@ Section Exposure.
     rewrite (views_ext (with_layout c Hier) c) by reflexivity.
     rewrite (debug_steps_ext (with_layout c Flat) c) by reflexivity.
     rewrite (debug_steps_ext (with_layout c Hier) c) by reflexivity.
-    unfold labels. simpl.
+    unfold Result.labels. simpl.
     repeat split.
     - unfold effective_layout. destruct (scene_is_empty _); reflexivity.
     - unfold effective_layout. destruct (scene_is_empty _); reflexivity.
@@ -369,7 +390,7 @@ Section Exposure.
     rewrite (end_states_ext (with_debug c true) c) by reflexivity.
     rewrite (views_ext (with_debug c false) c) by reflexivity.
     rewrite (views_ext (with_debug c true) c) by reflexivity.
-    unfold labels. simpl. rewrite children_strip. reflexivity.
+    unfold Result.labels. simpl. rewrite children_strip. reflexivity.
   Qed.
 
   (* the detector states do not depend on the debug flag at all *)
@@ -382,21 +403,29 @@ Section Exposure.
     run_models i (ms1 ++ ms2) d = run_models i ms2 (run_models i ms1 d).
   Proof. intros. unfold run_models. apply fold_left_app. Qed.
 
+  (* the debug capture reads the five containers under their own names and leaves out an all-zero charge *)
+  Definition visible_std : Prop := forall s, visible_t tbl s = visible s.
+
   (* as captured (before the end of the run): every model's node is what the ideal record says *)
-  Lemma debug_models_ideal : forall ms i (d : det), debug_models i ms d = ideal_models i ms d.
-  Proof. induction ms as [|m ms IH]; intros i d; [reflexivity|]. simpl. rewrite IH. reflexivity. Qed.
+  Lemma debug_models_ideal : visible_std -> forall ms i (d : det), debug_models tbl i ms d = ideal_models i ms d.
+  Proof.
+    intros Hv. induction ms as [|m ms IH]; intros i d; [reflexivity|]. simpl. rewrite IH, !Hv. reflexivity.
+  Qed.
 
   Lemma debug_models_length : forall ms i (d : det),
-    List.length (debug_models i ms d) = List.length (model_states i ms d).
+    List.length (debug_models tbl i ms d) = List.length (model_states i ms d).
   Proof. induction ms as [|m ms IH]; intros i d; [reflexivity|]. simpl. rewrite IH. reflexivity. Qed.
 
   Definition every_readout_copies : Prop := forall k, copies k = true.
 
-  Lemma settle_id : every_readout_copies -> forall (d : det) later ba, settle copies d later ba = ba.
-  Proof. intros H d later [b a]. unfold settle. simpl. rewrite H. reflexivity. Qed.
+  Lemma settle_id : every_readout_copies -> forall (d : det) later ba, settle tbl d later ba = ba.
+  Proof.
+    intros H d later [b a]. unfold settle, settle_arr. simpl.
+    destruct (source_of (tb_visible tbl) b); [rewrite H|]; reflexivity.
+  Qed.
 
   Lemma settle_nodes_id : every_readout_copies -> forall ns (sts later : list det),
-    List.length ns = List.length sts -> settle_nodes copies ns sts later = ns.
+    List.length ns = List.length sts -> settle_nodes tbl ns sts later = ns.
   Proof.
     intros H. induction ns as [|n ns IH]; intros [|d sts] later Hl; simpl in *; try reflexivity; try discriminate.
     rewrite IH by lia. destruct n as [st g nm vs]. simpl. f_equal. f_equal.
@@ -404,23 +433,53 @@ Section Exposure.
   Qed.
 
   (* C03_debug_nodes: when every read-out copies, the nodes of the result are exactly the ideal record *)
-  Theorem debug_steps_ideal : every_readout_copies -> forall (c : config) n i (d : det),
+  Theorem debug_steps_ideal : every_readout_copies -> visible_std -> forall (c : config) n i (d : det),
     debug_steps c i n d = ideal_steps empty_scene c i n d.
   Proof.
-    intros H c. induction n as [|n IH]; intros i d; [reflexivity|].
+    intros H Hv c. induction n as [|n IH]; intros i d; [reflexivity|].
     simpl. rewrite settle_nodes_id by (exact H || apply debug_models_length).
-    rewrite debug_models_ideal, IH. reflexivity.
+    rewrite debug_models_ideal by exact Hv. rewrite IH. reflexivity.
   Qed.
 End Exposure.
 
-Lemma all_copy_every : forall copies, all_copy copies = true -> every_readout_copies copies.
+Lemma all_copy_every : forall copies, all_copy copies = true -> forall k, copies k = true.
 Proof.
-  unfold all_copy, every_readout_copies. intros copies H k. rewrite forallb_forall in H. apply H.
+  unfold all_copy. intros copies H k. rewrite forallb_forall in H. apply H.
   destruct k; simpl; tauto.
 Qed.
 
-Lemma every_copy_safe : forall copies, every_readout_copies copies -> slices_safe copies.
-Proof. intros copies H k Hk. rewrite H in Hk. discriminate. Qed.
+Lemma bucket_eqb_eq : forall a b, bucket_eqb a b = true -> a = b.
+Proof. destruct a, b; simpl; intros; try reflexivity; discriminate. Qed.
+
+Lemma pairs_eqb_eq : forall a b, pairs_eqb a b = true -> a = b.
+Proof.
+  induction a as [|[x y] a IH]; destruct b as [|[x' y'] b]; simpl; intros H; try reflexivity; try discriminate.
+  apply andb_prop in H. destruct H as [H H3]. apply andb_prop in H. destruct H as [H1 H2].
+  apply bucket_eqb_eq in H1. apply bucket_eqb_eq in H2. subst. f_equal. apply IH. exact H3.
+Qed.
+
+(* what `tables_ok` gives, as propositions *)
+Theorem tables_ok_props : forall tbl, tables_ok tbl = true ->
+  every_readout_copies tbl /\ slices_safe tbl /\ tb_label tbl = LAbsolute /\ exports_all tbl /\ visible_std tbl.
+Proof.
+  unfold tables_ok. intros tbl H.
+  apply andb_prop in H. destruct H as [H Hv]. apply andb_prop in H. destruct H as [H He].
+  apply andb_prop in H. destruct H as [Hc Hl].
+  assert (C : every_readout_copies tbl) by (intros k; apply all_copy_every; exact Hc).
+  split; [exact C|]. split; [intros k Hk; rewrite C in Hk; discriminate|].
+  split; [unfold label_abs_b in Hl; destruct (tb_label tbl); [reflexivity|discriminate]|].
+  split.
+  - unfold exports_all_b in He. rewrite forallb_forall in He. intros v.
+    assert (Hin : In v all_buckets) by (destruct v; simpl; tauto).
+    specialize (He v Hin). destruct (source_of (tb_exported tbl) v) as [src|]; [|discriminate].
+    apply bucket_eqb_eq in He. subst. reflexivity.
+  - unfold visible_std_b in Hv. apply andb_prop in Hv. destruct Hv as [Hp Hz].
+    apply pairs_eqb_eq in Hp. rewrite forallb_forall in Hz.
+    assert (Z : forall b, tb_skip_zero tbl b = bucket_eqb b Charge).
+    { intros b. apply eqb_prop. apply Hz. destruct b; simpl; tauto. }
+    intros s. unfold visible_t, visible. rewrite Hp. unfold id_pairs, all_buckets. simpl.
+    rewrite !Z. reflexivity.
+Qed.
 
 (* ------------------------------------------------- what `changed_by` means, bucket by bucket *)
 
